@@ -12,9 +12,9 @@ package main
 
 import (
 	"bytes"
+	"context"
 	"encoding/json"
 	"fmt"
-	"math/rand"
 	"os"
 	"os/exec"
 	"path/filepath"
@@ -22,12 +22,10 @@ import (
 	"sort"
 	"strconv"
 	"strings"
-
-	"github.com/luraproject/lura/v2/backoff"
+	"time"
 
 	"verif/harness/internal/emit"
 	"verif/harness/internal/out"
-	"verif/harness/internal/rng"
 )
 
 func rmapCoq(m map[string]int64) string {
@@ -67,18 +65,87 @@ func tail(s string, n int) string {
 	return s
 }
 
+// budgets: a child that has not finished within its budget is killed by the parent; a child in
+// which nothing completes for the stall limit reports the operations in flight and exits by itself.
+func childBudget(cfg out.Config) time.Duration {
+	if cfg.Thorough() {
+		return 6 * time.Minute
+	}
+	return 60 * time.Second
+}
+
+type childResult struct {
+	stdout, stderr string
+	err            error
+	blocked        *blockedReport // non-nil: no progress (deadlock) or budget overrun
+	wall           time.Duration
+}
+
+var blockedChildren int
+
 // runChild re-executes this binary for one group of concurrent scenarios.
-func runChild(cfg out.Config, what string, env ...string) (stdout, stderr string, err error) {
+func runChild(cfg out.Config, what string, env ...string) childResult {
 	self, e := os.Executable()
 	if e != nil {
 		panic(e)
 	}
-	cmd := exec.Command(self, "--tier", cfg.Tier, "--seed", strconv.FormatUint(cfg.Seed, 10), "--out", cfg.Dir, "--extra", "child:"+what)
+	ctx, cancel := context.WithTimeout(context.Background(), childBudget(cfg))
+	defer cancel()
+	cmd := exec.CommandContext(ctx, self, "--tier", cfg.Tier, "--seed", strconv.FormatUint(cfg.Seed, 10), "--out", cfg.Dir, "--extra", "child:"+what)
 	cmd.Env = append(os.Environ(), env...)
+	cmd.WaitDelay = 5 * time.Second
 	var so, se bytes.Buffer
 	cmd.Stdout, cmd.Stderr = &so, &se
-	err = cmd.Run()
-	return so.String(), se.String(), err
+	t0 := time.Now()
+	err := cmd.Run()
+	res := childResult{stdout: so.String(), stderr: se.String(), err: err, wall: time.Since(t0)}
+	if i := strings.LastIndex(res.stderr, blockedMarker); i >= 0 {
+		line := res.stderr[i+len(blockedMarker):]
+		if j := strings.IndexByte(line, '\n'); j >= 0 {
+			line = line[:j]
+		}
+		var rep blockedReport
+		if json.Unmarshal([]byte(line), &rep) == nil {
+			res.blocked = &rep
+		}
+	}
+	if res.blocked == nil && ctx.Err() != nil {
+		res.blocked = &blockedReport{Scenario: what, StallS: res.wall.Seconds(),
+			InFlight: []string{fmt.Sprintf("child killed by the parent after %.0f s (budget overrun, no report from the child)", res.wall.Seconds())}}
+	}
+	if res.blocked != nil {
+		blockedChildren++
+	}
+	return res
+}
+
+// after this many blocked children the remaining ones of the pass are not started (the verdict is
+// settled and the generator has to end within its own budget)
+const maxBlocked = 3
+
+func skipRest(w *out.Writer, what string) bool {
+	if blockedChildren >= maxBlocked {
+		w.Count("child-skipped-after-" + strconv.Itoa(maxBlocked) + "-blocked")
+		fmt.Fprintln(os.Stderr, "C20: skipping child", what, "after", blockedChildren, "blocked children")
+		return true
+	}
+	return false
+}
+
+func blockedCase(w *out.Writer, scenario string, rep *blockedReport) {
+	w.Count("blocked")
+	infl := rep.InFlight
+	if len(infl) == 0 {
+		infl = []string{"(no operation in flight was recorded)"}
+	}
+	sc := scenario
+	if rep.Scenario != "" && rep.Scenario != scenario {
+		sc = scenario + " / " + rep.Scenario
+	}
+	w.Add(emit.App("CBlocked", emit.Str(sc), emit.StrList(infl)),
+		map[string]interface{}{"level": "blocked", "scenario": sc,
+			"observed": map[string]interface{}{"verdict": "no progress: operations blocked", "no_progress_for_s": rep.StallS, "operations_in_flight": infl}},
+		"", "blocked|"+scenario, true)
 }
 
 func crashCase(w *out.Writer, scenario, msg string) {
@@ -86,6 +153,47 @@ func crashCase(w *out.Writer, scenario, msg string) {
 	w.Add(emit.App("CCrash", emit.Str(scenario), emit.Str(tail(msg, 600))),
 		map[string]interface{}{"level": "crash", "scenario": scenario, "observed": map[string]interface{}{"stderr_tail": tail(msg, 3000)}},
 		"", "crash|"+scenario, true)
+}
+
+func skipCase(w *out.Writer, what string, why string) {
+	w.Add(emit.App("CSkip", emit.Str(what)), map[string]interface{}{"level": "placeholder", "scenario": what, "observed": why}, "", "skip|"+what, false)
+}
+
+// lines of a child's output. Every child contributes exactly want+1 cases whatever happens (so
+// that case indices are stable and a replay by index finds the same scenario): its results, a
+// placeholder for every result it did not deliver, and one status case - finished / blocked /
+// crashed.
+func childLines(cfg out.Config, w *out.Writer, what string, want int, each func(line []byte) bool) {
+	if skipRest(w, what) {
+		for i := 0; i <= want; i++ {
+			skipCase(w, what, "child not started: too many blocked children before it")
+		}
+		return
+	}
+	res := runChild(cfg, what)
+	n := 0
+	for _, line := range strings.Split(res.stdout, "\n") {
+		if strings.TrimSpace(line) == "" || n >= want {
+			continue
+		}
+		if each([]byte(line)) {
+			n++
+		}
+	}
+	for i := n; i < want; i++ {
+		skipCase(w, what, "result not delivered by the child (see its status case)")
+	}
+	switch {
+	case res.blocked != nil:
+		blockedCase(w, what, res.blocked)
+	case res.err != nil || n != want:
+		crashCase(w, what, fmt.Sprintf("child: %v after %d of %d results\n%s", res.err, n, want, res.stderr))
+	default:
+		w.Count("child-finished")
+		w.Add(emit.App("CLive", emit.Str(what), emit.Bool(true)),
+			map[string]interface{}{"level": "child-status", "scenario": what,
+				"observed": map[string]interface{}{"finished": true, "results": n, "wall_s": res.wall.Seconds()}}, "", "status|"+what, false)
+	}
 }
 
 func stratOf(name string) (string, bool) { // Coq constructor, jittered?
@@ -130,169 +238,128 @@ func histCase(w *out.Writer, ctor string, h histOut) {
 }
 
 func mainPass(cfg out.Config, w *out.Writer) {
-	r := rng.New(cfg.Seed)
+	// every call into lura happens in a child process with a watchdog (see conc.go)
 
-	// ---- non-jittered strategies: every attempt, also outside 0..30 (the model wraps like int64) ----
-	names := []string{"linear", "exponential", "", "LINEAR", "Exponential", "unknown", "constant", "linear ", "eXpOnEnTiAl"}
-	windows := [][2]int{{0, 31}, {-3, 80}, {28, 10}, {-1, 3}, {60, 8}}
-	for _, name := range names {
-		ctor, _ := stratOf(name)
-		f := backoff.GetByName(name)
-		for _, win := range windows {
-			obs := make([]int64, win[1])
-			for k := range obs {
-				obs[k] = int64(f(win[0] + k))
-			}
+	// ---- back-off: non-jittered strategies for every attempt, also outside 0..30 (the model wraps
+	// like int64); jittered strategies with a seeded source: the draw is known ----
+	draws, _ := jitDraws(cfg.Thorough())
+	childLines(cfg, w, "backoff", backoffCount(cfg.Thorough()), func(line []byte) bool {
+		var o backOut
+		if json.Unmarshal(line, &o) != nil {
+			return false
+		}
+		ctor, _ := stratOf(o.Name)
+		if o.Kind == "back" {
 			w.Count("backoff:" + ctor)
-			w.Add(emit.App("CBack", ctor, emit.Z(int64(win[0])), emit.ZList(obs)),
-				map[string]interface{}{"level": "backoff", "strategy": name, "from": win[0], "observed": obs}, "",
-				fmt.Sprintf("B|%s|%d|%d", ctor, win[0], win[1]), true)
+			w.Add(emit.App("CBack", ctor, emit.Z(int64(o.From)), emit.ZList(o.Obs)),
+				map[string]interface{}{"level": "backoff", "strategy": o.Name, "from": o.From, "observed": o.Obs}, "",
+				fmt.Sprintf("B|%s|%d|%d", ctor, o.From, len(o.Obs)), true)
+			return true
 		}
-	}
-
-	// ---- jittered strategies with a seeded source: the draw is known ----
-	draws, chunk := 40, 40
-	if cfg.Thorough() {
-		draws, chunk = 1500, 100
-	}
-	for _, name := range []string{"linear-jitter", "exponential-jitter", "Linear-Jitter"} {
-		ctor, _ := stratOf(name)
-		f := backoff.GetByName(name)
-		for i := 0; i <= 40; i++ {
-			nd := draws
-			if i > 30 || name == "Linear-Jitter" {
-				nd = 10
-			}
-			for done := 0; done < nd; done += chunk {
-				seed := int64(r.U64() >> 1)
-				old := backoff.VerifC20SetRandom(rand.New(rand.NewSource(seed)))
-				twin := rand.New(rand.NewSource(seed))
-				arg := i
-				if ctor == "JExponential" {
-					arg = int(1 << uint(i))
-				}
-				n := 2 * (arg*1000/3 + 1)
-				k := chunk
-				if nd-done < k {
-					k = nd - done
-				}
-				ps := make([]string, k)
-				pj := make([][2]int64, k)
-				for d := 0; d < k; d++ {
-					want := int64(twin.Intn(n))
-					got := int64(f(i))
-					ps[d] = emit.Pair(emit.Z(want), emit.Z(got))
-					pj[d] = [2]int64{want, got}
-				}
-				backoff.VerifC20SetRandom(old)
-				w.Count("jitter:" + ctor)
-				if i <= 30 {
-					w.Count("jitter:in-domain")
-				}
-				w.Add(emit.App("CJit", ctor, emit.Z(int64(i)), emit.List(ps)),
-					map[string]interface{}{"level": "jitter", "strategy": name, "attempt": i, "source_seed": seed,
-						"observed": map[string]interface{}{"draw_and_delay": pj}}, "",
-					fmt.Sprintf("J|%s|%d|%d", ctor, i, seed), true)
-			}
+		ps := make([]string, len(o.Pairs))
+		for d, p := range o.Pairs {
+			ps[d] = emit.Pair(emit.Z(p[0]), emit.Z(p[1]))
 		}
-	}
+		w.Count("jitter:" + ctor)
+		if o.Attempt <= 30 {
+			w.Count("jitter:in-domain")
+		}
+		w.Add(emit.App("CJit", ctor, emit.Z(int64(o.Attempt)), emit.List(ps)),
+			map[string]interface{}{"level": "jitter", "strategy": o.Name, "attempt": o.Attempt, "source_seed": o.Seed,
+				"observed": map[string]interface{}{"draw_and_delay": o.Pairs}}, "",
+			fmt.Sprintf("J|%s|%d|%d", ctor, o.Attempt, o.Seed), true)
+		return true
+	})
 
 	// ---- every registry from one goroutine: exact agreement with the sequential model ----
-	nseq := 40
-	if cfg.Thorough() {
-		nseq = 400
-	}
 	for _, kind := range registryNames {
-		for i := 0; i < nseq; i++ {
-			func() {
-				defer func() {
-					if e := recover(); e != nil {
-						crashCase(w, fmt.Sprintf("seq:%s:%d", kind, i), fmt.Sprint("panic: ", e))
-					}
-				}()
-				histCase(w, "CSeq", runSeq(kind, i, cfg.Seed, 10+r.Intn(30)))
-			}()
-		}
+		childLines(cfg, w, "seq:"+kind, seqCount(cfg.Thorough()), func(line []byte) bool {
+			var h histOut
+			if json.Unmarshal(line, &h) != nil {
+				return false
+			}
+			histCase(w, "CSeq", h)
+			return true
+		})
 	}
 
-	// ---- every registry from many goroutines: recorded histories (child processes) ----
+	// ---- every registry from many goroutines: recorded histories ----
 	for _, kind := range registryNames {
-		so, se, err := runChild(cfg, "hist:"+kind)
-		n := 0
-		for _, line := range strings.Split(so, "\n") {
+		childLines(cfg, w, "hist:"+kind, histScenarios(cfg.Thorough()), func(line []byte) bool {
 			var h histOut
-			if strings.TrimSpace(line) == "" || json.Unmarshal([]byte(line), &h) != nil {
-				continue
+			if json.Unmarshal(line, &h) != nil {
+				return false
 			}
-			n++
 			histCase(w, "CHist", h)
-		}
-		if err != nil || n != histScenarios(cfg.Thorough()) {
-			crashCase(w, "hist:"+kind, fmt.Sprintf("child: %v after %d scenarios\n%s", err, n, se))
-		}
+			return true
+		})
+	}
+
+	// ---- render registers through the routers' own lookup path: handlers built while renders are
+	// registered without pause (liveness) ----
+	for _, router := range []string{"gin", "mux"} {
+		childLines(cfg, w, "live:"+router, 1, func(line []byte) bool {
+			var o liveOut
+			if json.Unmarshal(line, &o) != nil {
+				return false
+			}
+			w.Count("live:" + router)
+			w.Add(emit.App("CLive", emit.Str(o.Scenario+":stress"), emit.Bool(true)),
+				map[string]interface{}{"level": "live", "scenario": o.Scenario,
+					"observed": map[string]interface{}{"handlers_built": o.Builds, "registrations_meanwhile": o.Regs, "finished": true}},
+				"", "L|"+o.Scenario, true)
+			return true
+		})
 	}
 
 	// ---- namespaced register: concurrent first registrations ----
-	{
-		so, se, err := runChild(cfg, "ns")
-		n := 0
-		for _, line := range strings.Split(so, "\n") {
-			var o nsOut
-			if strings.TrimSpace(line) == "" || json.Unmarshal([]byte(line), &o) != nil {
-				continue
-			}
-			n++
-			regs := make([]string, len(o.Regs))
-			for i, x := range o.Regs {
-				regs[i] = emit.Tuple(emit.Str(x.Ns), emit.Str(x.Name), emit.Z(x.V))
-			}
-			nss := make([]string, 0, len(o.Final))
-			for ns := range o.Final {
-				nss = append(nss, ns)
-			}
-			sort.Strings(nss)
-			fin := make([]string, len(nss))
-			for i, ns := range nss {
-				fin[i] = emit.Pair(emit.Str(ns), rmapCoq(o.Final[ns]))
-			}
-			w.Count(fmt.Sprintf("namespaced-stress:goroutines:%d", o.G))
-			w.Add(emit.App("CNs", emit.List(regs), emit.List(fin)),
-				map[string]interface{}{"level": "namespaced-stress", "batch": o.Batch, "goroutines": o.G, "trials": o.Trials,
-					"with_add_namespace": o.WithAdd, "registrations": o.Regs,
-					"observed": map[string]interface{}{"final": o.Final, "trials_with_lost_registration": o.Lost, "trial_reported": o.Trial}},
-				"", fmt.Sprintf("N|%d|%d", o.Batch, o.G), true)
+	nb, _ := nsBatches(cfg.Thorough())
+	childLines(cfg, w, "ns", nb, func(line []byte) bool {
+		var o nsOut
+		if json.Unmarshal(line, &o) != nil {
+			return false
 		}
-		nb, _ := nsBatches(cfg.Thorough())
-		if err != nil || n != nb {
-			crashCase(w, "ns", fmt.Sprintf("child: %v after %d batches\n%s", err, n, se))
+		regs := make([]string, len(o.Regs))
+		for i, x := range o.Regs {
+			regs[i] = emit.Tuple(emit.Str(x.Ns), emit.Str(x.Name), emit.Z(x.V))
 		}
-	}
+		nss := make([]string, 0, len(o.Final))
+		for ns := range o.Final {
+			nss = append(nss, ns)
+		}
+		sort.Strings(nss)
+		fin := make([]string, len(nss))
+		for i, ns := range nss {
+			fin[i] = emit.Pair(emit.Str(ns), rmapCoq(o.Final[ns]))
+		}
+		w.Count(fmt.Sprintf("namespaced-stress:goroutines:%d", o.G))
+		w.Add(emit.App("CNs", emit.List(regs), emit.List(fin)),
+			map[string]interface{}{"level": "namespaced-stress", "batch": o.Batch, "goroutines": o.G, "trials": o.Trials,
+				"with_add_namespace": o.WithAdd, "registrations": o.Regs,
+				"observed": map[string]interface{}{"final": o.Final, "trials_with_lost_registration": o.Lost, "trial_reported": o.Trial}},
+			"", fmt.Sprintf("N|%d|%d", o.Batch, o.G), true)
+		return true
+	})
 
 	// ---- jittered strategies from many goroutines ----
-	{
-		so, se, err := runChild(cfg, "jitconc")
-		n := 0
-		for _, line := range strings.Split(so, "\n") {
-			var o jitOut
-			if strings.TrimSpace(line) == "" || json.Unmarshal([]byte(line), &o) != nil {
-				continue
-			}
-			n++
-			ctor, _ := stratOf(o.Strategy)
-			w.Count("jitter-concurrent:" + ctor)
-			w.Add(emit.App("CJitConc", ctor, emit.Z(int64(o.Attempt)), emit.ZList(o.Obs)),
-				map[string]interface{}{"level": "jitter-concurrent", "strategy": o.Strategy, "attempt": o.Attempt, "observed": o.Obs}, "",
-				fmt.Sprintf("JC|%s|%d", ctor, o.Attempt), true)
+	childLines(cfg, w, "jitconc", 62, func(line []byte) bool {
+		var o jitOut
+		if json.Unmarshal(line, &o) != nil {
+			return false
 		}
-		if err != nil || n != 62 {
-			crashCase(w, "jitconc", fmt.Sprintf("child: %v after %d results\n%s", err, n, se))
-		}
-	}
+		ctor, _ := stratOf(o.Strategy)
+		w.Count("jitter-concurrent:" + ctor)
+		w.Add(emit.App("CJitConc", ctor, emit.Z(int64(o.Attempt)), emit.ZList(o.Obs)),
+			map[string]interface{}{"level": "jitter-concurrent", "strategy": o.Strategy, "attempt": o.Attempt, "observed": o.Obs}, "",
+			fmt.Sprintf("JC|%s|%d", ctor, o.Attempt), true)
+		return true
+	})
 
-	w.Close("back-off: 9 strategy names x 5 windows of attempts (-3..80) compared exactly; jittered: 3 names x attempts 0..40 x "+
-		strconv.Itoa(draws)+" draws (0..30) with a seeded source and the draw recomputed from a twin source; registries (untyped, namespaced, combiner, decoder, sd, gin and mux renders): "+
-		strconv.Itoa(nseq)+" single-goroutine sequences each against the sequential model, "+strconv.Itoa(histScenarios(cfg.Thorough()))+
-		" concurrent histories each (2..8 goroutines, 1..3 hot keys) checked for 'previous or newly registered value'; namespaced first-registration stress; concurrent jitter draws; nontrivial = case with both registrations and lookups, or any back-off case", false)
+	w.Meta["blocked_children"] = blockedChildren
+	w.Close("every call into lura runs in a child process under a watchdog (no progress for "+stallLimit(cfg.Thorough()).String()+" or budget "+childBudget(cfg).String()+": the child is ended and becomes a failing case listing the operations in flight). back-off: 9 strategy names x 5 windows of attempts (-3..80) compared exactly; jittered: 3 names x attempts 0..40 x "+
+		strconv.Itoa(draws)+" draws (0..30) with a seeded source and the draw recomputed from a twin source; registries (untyped, namespaced, combiner, decoder, sd, gin and mux renders through getWithFallback and through the endpoint handler factories / getRender): "+
+		strconv.Itoa(seqCount(cfg.Thorough()))+" single-goroutine sequences each against the sequential model, "+strconv.Itoa(histScenarios(cfg.Thorough()))+
+		" concurrent histories each (2..8 goroutines, 1..3 hot keys) checked for 'previous or newly registered value'; handler-building vs RegisterRender liveness stress for gin and mux; namespaced first-registration stress; concurrent jitter draws; nontrivial = case with both registrations and lookups, or any back-off case", false)
 }
 
 var luraFrame = regexp.MustCompile(`github\.com/luraproject/lura/v2/`)
@@ -345,8 +412,18 @@ func racePass(cfg out.Config, w *out.Writer) {
 			if procs != "" {
 				env = append(env, "GOMAXPROCS="+procs)
 			}
-			so, se, err := runChild(cfg, "race:"+name, env...)
+			if skipRest(w, "race:"+name) {
+				skipCase(w, "race:"+name, "child not started: too many blocked children before it")
+				continue
+			}
+			cres := runChild(cfg, "race:"+name, env...)
+			so, se, err := cres.stdout, cres.stderr, cres.err
 			nrace, first := raceReports(logp)
+			if cres.blocked != nil {
+				cres.blocked.InFlight = append(cres.blocked.InFlight, fmt.Sprintf("(race reports with a lura frame before the block: %d)", nrace))
+				blockedCase(w, "race:"+name, cres.blocked)
+				continue
+			}
 			var res map[string]string
 			crashed := ""
 			if json.Unmarshal([]byte(strings.TrimSpace(so)), &res) != nil || res["result"] != "done" {
@@ -361,7 +438,7 @@ func racePass(cfg out.Config, w *out.Writer) {
 						"first_report": first, "child_crashed": crashed}}, "", "R|"+name, true)
 		}
 	}
-	w.Close("race-detector build: one child process per scenario and variant (goroutines 3/8/16, GOMAXPROCS default/1/2/4/16): register/lookup/snapshot mixes on register.Untyped and Namespaced, the combiner, decoder, sd, gin-render and mux-render registers while handlers are built and requests served, the five back-off strategies shared by all goroutines, the three balancers, the DNS subscriber's Hosts() during refreshes; observed_race = a report with a lura frame in the child's race log, or the child was killed", false)
+	w.Close("race-detector build: one child process per scenario and variant (goroutines 3/8/16, GOMAXPROCS default/1/2/4/16): register/lookup/snapshot mixes on register.Untyped and Namespaced, the combiner, decoder, sd, gin-render and mux-render registers while handlers are built and requests served, the five back-off strategies shared by all goroutines, the three balancers, the DNS subscriber's Hosts() during refreshes; a child that makes no progress becomes a failing 'blocked' case; observed_race = a report with a lura frame in the child's race log, or the child was killed", false)
 }
 
 func main() {
